@@ -716,8 +716,12 @@ struct WorkerCtx {
 };
 
 void report_fails(const std::string& cfg, const RunResult& rr, const uint8_t* choices, int n) {
-    for (auto& f : rr.fails)
-        emit("VIOL\t" + clean(f.first, 300) + "\t" + clean(f.second, 1500) + " [cfg=" + cfg + " schedule=" + choices_str(choices, n) + "]\t" + cfg + "|" + choices_str(choices, n));
+    // one write() per line and lines below PIPE_BUF (4096): several worker processes share the pipe, longer lines would interleave
+    for (auto& f : rr.fails) {
+        const std::string spec = cfg + "|" + choices_str(choices, n);
+        const size_t room = spec.size() < 3000 ? 3600 - spec.size() : 600;
+        emit("VIOL\t" + clean(f.first, 200) + "\t" + clean(f.second + " [cfg=" + cfg + ", " + std::to_string(n) + " decision points]", std::min<size_t>(1500, room)) + "\t" + spec);
+    }
 }
 
 void worker_loop(const WorkerCtx& w) {
